@@ -1,0 +1,238 @@
+//go:build verif
+
+package syncer
+
+// Contracts for the verification machinery in /verif (build tag "verif").
+
+//@ func buildSelectCmdExecution
+//@   arith int
+//@   properties C07 C01
+//@   ensures fields: result.Offset == offset && result.Db == db && result.Cmd == "select"
+
+// ---- producer side: every item handed to the sender carries the stream offset at which its
+// ---- source command ends (or the start offset for the synthetic resume-time SELECT), and
+// ---- offsets never decrease.
+//   cur       offset at which the command being processed ends (start offset before the first)
+//   sentHigh  largest offset handed to the sender so far
+
+//@ func RedisOutput.parseAofCommand
+//@   arith int
+//@   properties C07 C01
+//@   ghost var pos mathint
+//@   ghost var unread mathint
+//@   ghost var cur mathint = startOffset
+//@   ghost var sentHigh mathint = startOffset
+//@   requires nonnil: ro != nil && reader != nil && ro.outFilter != nil
+//@   modifies heap, pos, unread
+//@   set cur = startOffset + incrOffset after store incrOffset
+//@   assert at send sendBuf: command_end: sent.Offset == cur
+//@   assert at send sendBuf: monotone: sent.Offset >= sentHigh
+//@   set sentHigh = sent.Offset after send sendBuf
+//@   loop 1:
+//@     invariant decoder: decoder != nil && decoder.r != nil && decoder.offset >= 0
+//@     invariant order: sentHigh <= cur && cur <= startOffset + decoder.offset
+
+// ---- frame / purity contracts of helpers used by the event loops -----------------------
+
+//@ func pkg/sync.WaitCloser.IsClosed(self) (r)
+//@   trusted frame: reads the closer's own state only
+
+//@ func pkg/sync.WaitCloser.Context(self) (c)
+//@   trusted frame: reads the closer's own state only
+
+//@ func pkg/sync.WaitCloser.Done(self) (c)
+//@   trusted frame: reads the closer's own state only
+
+//@ func pkg/sync.WaitCloser.Error(self) (e)
+//@   trusted frame: reads the closer's own state only
+
+//@ func pkg/sync.WaitCloser.Close(self, err)
+//@   trusted frame: changes the closer's own state only (not modelled)
+
+//@ func pkg/sync.WaitCloser.Sleep(self, d)
+//@   trusted frame: waits
+
+//@ func client.ParseArgs(resp) (cmd, args, err)
+//@   trusted frame: decodes into freshly allocated slices, modifies nothing that existed before
+
+//@ func util.BytesToString(b) (s)
+//@   trusted unsafe cast: same bytes
+//@   ensures same_bytes: s == string(b)
+
+//@ func bytes.Equal(a, b) (r)
+//@   trusted library contract (pure)
+
+//@ func RedisOutput.filterCounterAdd
+//@   arith int
+//@   properties C01
+//@   modifies nothing
+
+//@ func RedisOutput.sendCounterAdd
+//@   arith int
+//@   properties C01
+//@   modifies nothing
+
+// selectDB: the target database of a source `SELECT n` after the configured mapping
+//@ func RedisOutput.selectDB
+//@   arith int
+//@   properties C01
+//@   requires nonnil: ro != nil
+//@   modifies nothing
+//@   ensures no_select: originDB == 0 - 1 ==> result0 == currentDB && !result1
+//@   ensures mapping: originDB != 0 - 1 && ro.cfg.TargetDb != 0 - 1 ==> result0 == ro.cfg.TargetDb
+//@   ensures unmapped: originDB != 0 - 1 && ro.cfg.TargetDb == 0 - 1 && !haskey(ro.cfg.TargetDbMap, originDB) ==> result0 == originDB
+//@   ensures mapped: originDB != 0 - 1 && ro.cfg.TargetDb == 0 - 1 && haskey(ro.cfg.TargetDbMap, originDB) ==> result0 == ro.cfg.TargetDbMap[originDB]
+//@   ensures switch_iff_different: originDB != 0 - 1 ==> (result1 <==> result0 != currentDB)
+
+// ---- transaction state machine (C09) ----------------------------------------------------
+// The command table is assigned once by the package initialiser.
+//@ axiom txn_table: haskey(transactionCmdMap, "select") && transactionCmdMap["select"] == txnStatusBarrier && haskey(transactionCmdMap, "multi") && transactionCmdMap["multi"] == txnStatusBegin && haskey(transactionCmdMap, "exec") && transactionCmdMap["exec"] == txnStatusCommit
+//@ axiom txn_table_only: forall k string :: haskey(transactionCmdMap, k) ==> k == "select" || k == "multi" || k == "exec"
+
+//@ func transactionStatus
+//@   arith int
+//@   properties C09 C02
+//@   requires known: prevTxnStatus >= txnStatusNo && prevTxnStatus <= txnStatusCommit
+//@   modifies nothing
+//@   ensures inside_txn: (prevTxnStatus == txnStatusBegin || prevTxnStatus == txnStatusIn) ==> ((cmd == "exec" ==> result0 == txnStatusCommit && result1) && (cmd != "exec" ==> result0 == txnStatusIn && !result1))
+//@   ensures outside_select: !(prevTxnStatus == txnStatusBegin || prevTxnStatus == txnStatusIn) && cmd == "select" ==> result0 == txnStatusBarrier && result1
+//@   ensures outside_multi: !(prevTxnStatus == txnStatusBegin || prevTxnStatus == txnStatusIn) && cmd == "multi" ==> result0 == txnStatusBegin && result1
+//@   ensures outside_exec: !(prevTxnStatus == txnStatusBegin || prevTxnStatus == txnStatusIn) && cmd == "exec" ==> result0 == txnStatusCommit && result1
+//@   ensures outside_other: !(prevTxnStatus == txnStatusBegin || prevTxnStatus == txnStatusIn) && cmd != "select" && cmd != "multi" && cmd != "exec" ==> result0 == txnStatusNo && !result1
+//@   ensures range: result0 >= txnStatusNo && result0 <= txnStatusCommit
+
+// ---- abstract target: one batch of commands (C07 / C09 / C02) ---------------------------
+// Ghost view of the batch being built since the last NewBatcher:
+//   bLen     number of commands put          bFirst / bLast  first / last command name
+//   bCpPuts  number of resume-position writes (hset <key> <runid>_offset N)
+//   bCp      the offset of the last such write,  bCpPos its position in the batch (1-based)
+//   tCpHigh  largest resume position handed to the target so far in this run
+// The C07 / C09 / C02 requirements are PRECONDITIONS of this abstract interface: a caller
+// that would store an undefined or smaller position, or send a half-bracketed batch, fails
+// to establish them.
+
+//   cpArmed  1 between the evaluation of CheckpointInfo.OffsetKey() and the Put that uses it:
+//            that Put is the resume-position write (a business HSET k f v has the same shape)
+//@ pred isCpPut(cmd, args): cpArmed == 1 && cmd == "hset" && len(args) == 3 && hastype(args[2], "int64")
+
+//@ func client.Redis.NewBatcher(self, pipeline) (b)
+//@   trusted abstract target
+//@   modifies bLen, bFirst, bLast, bCpPuts, bCp, bCpPos
+//@   ensures empty: b != nil && bLen == 0 && bCpPuts == 0 && bCpPos == 0
+
+//@ func common.CmdBatcher.Put(self, cmd, args) (err)
+//@   trusted abstract target
+//@   requires cp_defined [C07]: isCpPut(cmd, args) ==> asint64(args[2]) >= 0
+//@   requires cp_monotone [C07]: isCpPut(cmd, args) ==> asint64(args[2]) >= tCpHigh
+//@   modifies bLen, bFirst, bLast, bCpPuts, bCp, bCpPos, tCpHigh, cpArmed
+//@   ensures disarmed: cpArmed == 0
+//@   ensures counted: bLen == old(bLen) + 1 && bLast == cmd && (old(bLen) == 0 ==> bFirst == cmd) && (old(bLen) != 0 ==> bFirst == old(bFirst))
+//@   ensures cp: old(isCpPut(cmd, args)) ==> bCpPuts == old(bCpPuts) + 1 && bCp == asint64(args[2]) && bCpPos == bLen && tCpHigh == asint64(args[2])
+//@   ensures not_cp: !old(isCpPut(cmd, args)) ==> bCpPuts == old(bCpPuts) && bCp == old(bCp) && bCpPos == old(bCpPos) && tCpHigh == old(tCpHigh)
+
+//@ func common.CmdBatcher.Len(self) (n)
+//@   trusted abstract target
+//@   ensures len: n == bLen
+
+//@ pred batchShape(bLen, bFirst, bLast, bCpPuts, bCpPos): ((bFirst == "multi") <==> (bLast == "exec")) && bCpPuts <= 1 && (bCpPuts == 1 && bFirst == "multi" ==> bCpPos == bLen - 1) && (bCpPuts == 1 && bFirst != "multi" ==> bCpPos == bLen)
+
+//@ func common.CmdBatcher.Exec(self) (replies, err)
+//@   trusted abstract target
+//@   requires shape [C09 C02]: batchShape(bLen, bFirst, bLast, bCpPuts, bCpPos)
+
+//@ func common.CmdBatcher.Dispatch(self) (err)
+//@   trusted abstract target
+//@   requires shape [C09 C02]: batchShape(bLen, bFirst, bLast, bCpPuts, bCpPos)
+
+//@ func common.CmdBatcher.Receive(self) (replies, err)
+//@   trusted abstract target
+
+// ---- one flush: [multi] queued commands [hset runid/version] [hset offset] [exec] -------
+
+//@ pred queueClean(q): forall i int :: 0 <= i && i < len(q) ==> q[i].Cmd != "multi" && q[i].Cmd != "exec"
+
+//@ func RedisOutput.sendCmdsBatch$sendFuncOnce
+//@   arith int
+//@   properties C07 C09 C02
+//@   ghost var bLen mathint
+//@   ghost var bFirst string
+//@   ghost var bLast string
+//@   ghost var bCpPuts mathint
+//@   ghost var bCp mathint
+//@   ghost var bCpPos mathint
+//@   ghost var tCpHigh mathint
+//@   ghost var cpArmed mathint
+//@   requires nonnil: ro != nil && conn != nil
+//@   requires clean: queueClean(cmdQueue)
+//@   requires disarmed: cpArmed == 0
+//@   requires cp_monotone [C07]: shouldUpdateCP ==> lastOffset >= tCpHigh
+//@   modifies heap, cmdQueue, queuedByteSize, bLen, bFirst, bLast, bCpPuts, bCp, bCpPos, tCpHigh, cpArmed
+//@   set cpArmed = 1 at call OffsetKey
+//@   ensures sent: result == nil && !isPipeline ==> len(cmdQueue) == 0
+//@   ensures queue_kept_or_emptied: queueClean(cmdQueue)
+//@   ensures disarmed: cpArmed == 0
+//@   ensures high: tCpHigh == old(tCpHigh) || (shouldUpdateCP && tCpHigh == lastOffset)
+//@   loop 1:
+//@     invariant no_cp_yet: cpArmed == 0 && bCpPuts == 0 && bCpPos == 0 && tCpHigh == old(tCpHigh)
+//@     invariant count: bLen == ite(shouldInTransaction, 1, 0) + rangeindex + 1 && 0 - 1 <= rangeindex
+//@     invariant first: (shouldInTransaction ==> bLen >= 1 && bFirst == "multi") && (!shouldInTransaction && bLen > 0 ==> bFirst != "multi" && bLast != "exec") && bLen >= 0
+//@     invariant queue: queueClean(cmdQueue) && cmdQueue == old(cmdQueue)
+
+// ---- retry wrapper: same contract as one flush (a retry re-sends the same queue) ---------
+//@ func RedisOutput.sendCmdsBatch$sendFunc
+//@   arith int
+//@   properties C07 C09 C02
+//@   ghost var bLen mathint
+//@   ghost var bFirst string
+//@   ghost var bLast string
+//@   ghost var bCpPuts mathint
+//@   ghost var bCp mathint
+//@   ghost var bCpPos mathint
+//@   ghost var tCpHigh mathint
+//@   ghost var cpArmed mathint
+//@   requires nonnil: ro != nil && conn != nil && replayWait != nil
+//@   requires clean: queueClean(cmdQueue)
+//@   requires disarmed: cpArmed == 0
+//@   requires cp_monotone [C07]: shouldUpdateCP ==> lastOffset >= tCpHigh
+//@   modifies heap, cmdQueue, queuedByteSize, bLen, bFirst, bLast, bCpPuts, bCp, bCpPos, tCpHigh, cpArmed
+//@   ensures sent: result == nil && !isPipeline ==> len(cmdQueue) == 0
+//@   ensures queue_kept_or_emptied: queueClean(cmdQueue)
+//@   ensures disarmed: cpArmed == 0
+//@   ensures high: tCpHigh == old(tCpHigh) || (shouldUpdateCP && tCpHigh == lastOffset)
+//@   loop 1:
+//@     invariant retry: queueClean(cmdQueue) && cpArmed == 0 && (tCpHigh == old(tCpHigh) || (shouldUpdateCP && tCpHigh == lastOffset))
+
+// ---- the sender's event loop -------------------------------------------------------------
+//   pending  offset of the item received in this iteration that is neither queued nor
+//            otherwise absorbed yet (-1: none). A resume position written while an item is
+//            pending must lie before it, except at EXEC where the whole transaction is in
+//            the batch being flushed.
+//@ func RedisOutput.sendCmdsBatch
+//@   arith int
+//@   properties C07 C09 C02
+//@   replay syncer_sendCmdsBatch
+//@   ghost var bLen mathint
+//@   ghost var bFirst string
+//@   ghost var bLast string
+//@   ghost var bCpPuts mathint
+//@   ghost var bCp mathint
+//@   ghost var bCpPos mathint
+//@   ghost var tCpHigh mathint = 0 - 1
+//@   ghost var cpArmed mathint = 0
+//@   ghost var pending mathint = 0 - 1
+//@   requires nonnil: ro != nil && conn != nil && replayWait != nil
+//@   modifies heap, bLen, bFirst, bLast, bCpPuts, bCp, bCpPos, tCpHigh, cpArmed, pending
+//@   chan sendBuf: increasing: recv.Offset > lastOffset && recv.Offset >= 0
+//@   set pending = lastOffset after store lastOffset
+//@   set pending = 0 - 1 after store cmdQueue
+//@   set pending = 0 - 1 after store inTransaction
+//@   set pending = 0 - 1 at loop 1
+//@   assert at call sendFunc: cp_absorbed [C02 C09]: shouldUpdateCP ==> pending == 0 - 1 || lastOffset < pending || txnStatus == txnStatusCommit
+//@   assert at call sendFunc: txn_whole [C09]: !inTransaction || txnStatus == txnStatusCommit
+//@   assert at call sendFunc: cp_monotone [C07]: shouldUpdateCP ==> lastOffset >= tCpHigh
+//@   assert at call sendFunc: queue_clean [C09]: queueClean(cmdQueue)
+//@   loop 1:
+//@     invariant high: tCpHigh <= lastOffset && cpArmed == 0
+//@     invariant status: txnStatus >= txnStatusNo && txnStatus <= txnStatusCommit
+//@     invariant txn: inTransaction ==> (transactionMode && (txnStatus == txnStatusBegin || txnStatus == txnStatusIn))
+//@     invariant queue: queueClean(cmdQueue)
